@@ -170,6 +170,10 @@ def run(tier, seed):
                     argv.append(flag)
             if sub:
                 argv += ['-S'] + [NAMES[g] for g in sub]
+            # presentation options next to -n select nothing and hide nothing
+            for popt in ('-x', '-r', '-P'):
+                if rng.random() < 0.15:
+                    argv.insert(3, popt)
             out, err = io.StringIO(), io.StringIO()
             old = sys.argv
             sys.argv = argv
